@@ -379,7 +379,9 @@ Proof.
   assert (E2 : (match te_of t :: al_list al with
                 | _ :: a :: _ => if tyis a "alias_expression" then
                                    match list_child_segments a true with
-                                   | _ :: x :: _ => Ok (Some (raw x)) | [x] => Ok (Some (raw x)) | [] => Err EIndex end
+                                   | f0 :: x :: _ => if tyis f0 "alias_operator" || (tyis f0 "keyword" && String.eqb (raw_upper f0) "AS")
+                                                     then Ok (Some (raw x)) else Ok (Some (raw f0))
+                                   | [x] => Ok (Some (raw x)) | [] => Err EIndex end
                                  else Ok None
                 | _ => Ok None end) = Ok (option_map (sp R_ALIAS) al)).
   { destruct al as [a|]; [|reflexivity]. cbn [al_list]. change (tyis (r_alias_spr sp kwf noise a) "alias_expression") with true. cbn iota.
